@@ -8,6 +8,10 @@ import (
 	"flag"
 	"fmt"
 	"os"
+	"reflect"
+	"regexp"
+	"sort"
+	"strconv"
 	"strings"
 
 	"github.com/mfcochauxlaberge/jsonapi"
@@ -94,6 +98,12 @@ type sObs struct {
 	// NextErrs: what Check says, right afterwards, of a coherent schema that holds every type name this
 	// one mentions (probeSchema): what one call found missing is nothing to the next
 	NextErrs int `json:"next_nerrs"`
+	// Blamed: the (type, relationship) pairs that the texts of Check's errors name; Unparsed: how many of
+	// the texts name none in a form this harness reads (then the monitor falls back to counting)
+	Blamed   [][]string `json:"blamed"`
+	Unparsed int        `json:"unparsed"`
+	// DeepSame: after Check the schema is what it was before, nil maps and empty maps told apart
+	DeepSame bool `json:"deep_same"`
 	// the empty name, probed apart
 	HasEmpty bool   `json:"has_empty"`
 	GetEmpty string `json:"get_empty"`
@@ -403,7 +413,7 @@ func probeSchema(s *jsonapi.Schema) *jsonapi.Schema {
 }
 
 func observeSchema(s *jsonapi.Schema, probes []string) sObs {
-	o := sObs{Has: map[string]bool{}, Get: map[string]string{}}
+	o := sObs{Has: map[string]bool{}, Get: map[string]string{}, Blamed: [][]string{}, DeepSame: true}
 	o.HasEmpty = s.HasType("")
 	o.GetEmpty = s.GetType("").Name
 	for _, n := range probes {
@@ -427,7 +437,9 @@ func runSchemaCase(c sCase, probes []string) sEvent {
 		ev.Ev = "check"
 		ev.Op = sOp{Op: "Check"}
 		var errs []error
+		before := deepTypes(s.Types)
 		p, _ := catch(func() { errs = s.Check() })
+		deepSame := reflect.DeepEqual(before, s.Types)
 		ev.Ret = "ok"
 		if p || setupPanicked {
 			ev.Ret = "panic"
@@ -435,6 +447,8 @@ func runSchemaCase(c sCase, probes []string) sEvent {
 		ev.Post = projSchema(s)
 		ev.Obs = observeSchema(s, nil)
 		ev.Obs.NErrs = len(errs)
+		ev.Obs.DeepSame = deepSame
+		ev.Obs.Blamed, ev.Obs.Unparsed = blameOf(errs)
 		if pr, _ := catch(func() { ev.Obs.NextErrs = len(probeSchema(s).Check()) }); pr {
 			ev.Obs.NextErrs = -1
 		}
@@ -641,4 +655,59 @@ func schemaMain(args []string) {
 	stt.Rule = "distinct (projected pre-state, op) pairs whose call returned an error, panicked or changed the schema"
 	w.Close()
 	stt.write(*out+"/stats.json", w)
+}
+
+// deepTypes: a copy of the list of types that shares nothing with it and keeps nil maps nil
+func deepTypes(ts []jsonapi.Type) []jsonapi.Type {
+	if ts == nil {
+		return nil
+	}
+	out := make([]jsonapi.Type, len(ts))
+	for i, t := range ts {
+		c := t
+		if t.Attrs != nil {
+			c.Attrs = map[string]jsonapi.Attr{}
+			for k, v := range t.Attrs {
+				c.Attrs[k] = v
+			}
+		}
+		if t.Rels != nil {
+			c.Rels = map[string]jsonapi.Rel{}
+			for k, v := range t.Rels {
+				c.Rels[k] = v
+			}
+		}
+		out[i] = c
+	}
+	return out
+}
+
+var blameRe = regexp.MustCompile(`relationship ("(?:[^"\\]|\\.)*")[^"]*("(?:[^"\\]|\\.)*")`)
+
+// blameOf: which relationship of which type each error of Check speaks of (all three texts of schema.go
+// say `relationship "name"` and then the owning type's name in quotes)
+func blameOf(errs []error) ([][]string, int) {
+	seen := map[[2]string]bool{}
+	out := [][]string{}
+	unparsed := 0
+	for _, e := range errs {
+		m := blameRe.FindStringSubmatch(e.Error())
+		if m == nil {
+			unparsed++
+			continue
+		}
+		fn, err1 := strconv.Unquote(m[1])
+		tn, err2 := strconv.Unquote(m[2])
+		if err1 != nil || err2 != nil {
+			unparsed++
+			continue
+		}
+		k := [2]string{atn(tn), afn(fn)}
+		if !seen[k] {
+			seen[k] = true
+			out = append(out, []string{k[0], k[1]})
+		}
+	}
+	sort.Slice(out, func(i, j int) bool { return out[i][0]+"\x00"+out[i][1] < out[j][0]+"\x00"+out[j][1] })
+	return out, unparsed
 }
